@@ -61,6 +61,13 @@ J gen(uint64_t seed, bool thorough) {
     double cover = r.chance(0.5) ? r.uniform(0.5, 0.9) : r.uniform(1.1, 1.5);
     if (focus_expand) { cover = r.uniform(0.45, 0.8); while (cv.periodic()) cv = make_cv(r, ec.natoms, kinds[r.below(5)], i ? "two" : "one"); }
     place_grid(cv, m, T, r, nb, cover);
+    if (!cv.periodic()) {
+      // a boundary the trajectory never reaches may be declared hard (the library then keeps no hills for evaluation beyond it);
+      // the other side stays soft and is crossed as before
+      double lo, hi; cv_range(cv, m, T, lo, hi);
+      if (cv.upper > hi + 1e-6 && r.chance(0.4)) cv.extra += "  hardUpperBoundary on\n";
+      if (cv.lower < lo - 1e-6 && r.chance(0.4)) cv.extra += "  hardLowerBoundary on\n";
+    }
     if (focus_expand) cv.expand = (i == 0);
     else if (expand && !cv.periodic() && r.chance(0.7)) cv.expand = true;
     cvs.push_back(cv);
@@ -272,6 +279,7 @@ Property make() {
            "gaussianSigmas x newHillFrequency 1-6 x gridsUpdateFrequency equal or larger x well-tempered x keepHills x expandBoundaries x rebinGrids x useGrids off, over 10-80 "
            "steps in 1-3 segments with optional stop/resume; non-trivial = at least one hill deposited; distinct = hash of (template, segmentation, whether the trajectory left the grid)";
   p.rule += " Later additions: with keepHills and rebinGrids 70% of the resumes move the grid boundaries by a non-integer number of bins.";
+  p.rule += " Fifth round: boundaries the trajectory never reaches are declared hard with probability 0.4.";
   p.assumptions = {"the model takes the values Colvars reports and the current grid geometry (boundaries, widths, sizes) as inputs",
                    "tolerance = number of hills x hillWeight x 1.1e-5 (the documented truncation of a hill below exp(-11.5)) plus round-off",
                    "non-scalar variables (vectors, quaternions) are not covered"};
